@@ -37,6 +37,9 @@ func genPertCase(c *orch.Ctx, prop string, i int, ids []string) (*synth.Project,
 	p := synth.Gen(r, pertProfile, fmt.Sprintf("p%04d", i), lab.ModPath)
 	id := ids[i%len(ids)]
 	pt := ApplyPerturbation(p, id, r)
+	if r.Intn(3) == 0 && pt.Applied {
+		addOverlappingTwin(p)
+	}
 	noise := 0
 	if r.Intn(2) == 0 {
 		noise = 1 + r.Intn(9)
@@ -133,4 +136,51 @@ func diagSummary(v *pipe.ValidateOut) string {
 		parts = append(parts, fmt.Sprintf("%s(sev%d)@%d:%d-%d:%d", d.Code, d.Severity, d.Range[0], d.Range[1], d.Range[2], d.Range[3]))
 	}
 	return strings.Join(parts, ", ")
+}
+
+// addOverlappingTwin gives the Target method a well-formed sibling with the same verb whose route is made of
+// parameters only (same number of segments): the pair overlaps, so validation also attaches route-conflict
+// warnings to both. A warning-level finding next to the perturbation must never change the verdict on it.
+func addOverlappingTwin(p *synth.Project) {
+	c := &p.Controllers[0]
+	var target *synth.Method
+	for mi := range c.Methods {
+		if c.Methods[mi].Name == "Target" {
+			target = &c.Methods[mi]
+		}
+	}
+	if target == nil || !target.IsEndpoint() {
+		return
+	}
+	okVerb := false
+	for _, v := range []string{"GET", "POST", "PUT", "DELETE", "PATCH"} {
+		if target.Verb == v {
+			okVerb = true
+		}
+	}
+	if !okVerb {
+		return
+	}
+	n := 0
+	for _, seg := range strings.Split(target.Route, "/") {
+		if seg != "" {
+			n++
+		}
+	}
+	if n == 0 {
+		return
+	}
+	twin := synth.Method{Name: "TargetTwin", Verb: target.Verb, File: target.File}
+	for i := 0; i < n; i++ {
+		name := fmt.Sprintf("tw%d", i+1)
+		twin.Route += "/{" + name + "}"
+		twin.Params = append(twin.Params, synth.Param{GoName: name, In: "path", Type: synth.Prim("string")})
+	}
+	if strings.Contains(c.Route, "{tenant}") {
+		twin.Params = append(twin.Params, synth.Param{GoName: "tenant", In: "path", Type: synth.Prim("string")})
+	}
+	t := synth.Prim("string")
+	twin.Ret = &t
+	c.Methods = append(c.Methods, twin)
+	p.SetFeature("overlapping-twin-next-to-target")
 }
